@@ -10,7 +10,7 @@ ID = 'C01'
 LEVEL = 'exploration'
 BUDGET = {'quick': 150, 'thorough': 1500}
 CHUNK = 8
-RULE = ('Cases: FASTA record sets built with `ska build -k K [--single-strand]` and read out with `ska nk --full-info`, '
+RULE = ('Cases: FASTA record sets built with `ska build -k K [--single-strand]` and read out with `ska nk --full-info` (a third also with plain `ska nk` and `ska nk -v`, whose header fields must agree), '
         'compared with the set-based reference model (arms -> IUPAC code of the set of middles; header fields). '
         'Forced kinds for every odd k in 5..63 and both strand modes: records of length k-1/k/k+1, N exactly k+1/k/k+2 '
         'from the record end, one k-mer repeated with 2..4 middles in both orientations, self-complementary arms, a record '
@@ -21,7 +21,7 @@ ASSUMPTIONS = ['the reference model in vlib/model.py states the specification co
                'file names s<i>.fa give sample names s<i>',
                'a 15% slice is also run on the overflow-checked build; its panics are diagnostics, the release build decides']
 REQUIRED = {'quick': ['kind:len', 'kind:nend', 'kind:repeat', 'kind:pal', 'kind:rcrec', 'kind:empty', 'kind:random',
-                      'kind:multi', 'kind:manythreads', 'kind:inprocess', 'inprocess_builds_compared', 'palindromic_rows', 'refusals_correct', 'width64', 'width128']}
+                      'kind:multi', 'kind:manythreads', 'kind:inprocess', 'inprocess_builds_compared', 'palindromic_rows', 'refusals_correct', 'width64', 'width128', 'nk_without_full_info_compared']}
 REQUIRED['thorough'] = REQUIRED['quick']
 
 KINDS = ['len', 'nend', 'repeat', 'pal', 'rcrec', 'empty']
@@ -274,6 +274,21 @@ def run_case(desc, ctx):
             res.violate('C01:%s:nk-failed' % desc['kind'], 'nk failed on a fresh build: %s' % e, {'samples': samples})
             continue
         judge(res, 'C01' if variant == 'rel' else 'C01chk', desc, samples, p, hdr, table, k, rcmode, expected)
+        if variant == 'rel' and desc['seed'] % 3 == 0:
+            # `ska nk` without --full-info (with and without the global -v) reports the same header fields
+            for extra in ([], ['-v']):
+                q = ctx.sh(binary, 'nk', out + '.skf', *extra)
+                res.evals += 1
+                try:
+                    h2, t2 = M.parse_nk(q.stdout) if q.returncode == 0 else (None, None)
+                except ValueError:
+                    h2, t2 = None, None
+                if h2 is None or t2 or any(h2.get(f) != hdr.get(f) for f in ('k', 'k_bits', 'rc', 'k-mers', 'samples', 'names', 'kmers_per_sample')):
+                    res.violate('C01:nk-short', 'k=%d rc=%s: `ska nk%s` (exit %d) reports %s, `ska nk --full-info` %s'
+                                % (k, rcmode, ' -v' if extra else '', q.returncode, h2, {f: hdr.get(f) for f in ('k', 'k_bits', 'rc', 'k-mers', 'samples', 'names', 'kmers_per_sample')}),
+                                {'samples': samples})
+                else:
+                    res.count('nk_without_full_info_compared')
         if variant == 'rel':
             res.count('rows_compared', len(expected))
             for row in expected.values():
